@@ -501,7 +501,7 @@ def random_nested_rings(rng, num=None, curved=False, center=(0, 0), size=10.0):
                 spec["cw"] = True
         else:
             grid = grid_for(rng, num)
-            if grid is not None and grid * r < 48:
+            if num != "int" and grid is not None and grid * r < 48:
                 grid = int(math.ceil(48 / r))
             verts = None
             for _ in range(40):
@@ -515,6 +515,39 @@ def random_nested_rings(rng, num=None, curved=False, center=(0, 0), size=10.0):
     big = {"t": "connected", "parts": [parts[0], parts[1]]}
     island = {"t": "connected", "parts": [parts[2], parts[3]]}
     return {"t": "disjoint", "parts": [big, island]}, {"family": "nested-rings"}
+
+
+def random_mixed_disjoint(rng, num=None, curved=False, center=(0, 0), size=10.0):
+    """Disjoint shape mixing an unbounded component (the exterior of a big boundary) and a
+    bounded island inside that boundary:  small | ~big."""
+    num = num or rng.choice(["int", "frac", "float"])
+    if curved:
+        num = "float"
+    scale = size if num != "int" else max(size, 160.0)
+    cx, cy = float(center[0]), float(center[1])
+    if num == "int":
+        cx, cy = round(cx), round(cy)
+    parts = []
+    for level, r in enumerate((scale, scale * 0.35)):
+        cw = level == 0
+        if curved and rng.random() < 0.5:
+            spec = {"t": "circle", "num": "float", "r": repr(r * 0.9), "c": [repr(cx), repr(cy)], "n": rng.choice([5, 8, 12])}
+            if cw:
+                spec["cw"] = True
+        else:
+            grid = grid_for(rng, num)
+            if num != "int" and grid is not None and grid * r < 48:
+                grid = int(math.ceil(48 / r))
+            verts = None
+            for _ in range(40):
+                verts = convex_polygon(rng, rng.randint(5, 8), (cx, cy), r * 0.9, grid)
+                if verts:
+                    break
+            if verts is None:
+                raise RuntimeError("mixed disjoint")
+            spec = poly_spec(verts, num, cw)
+        parts.append(spec)
+    return {"t": "disjoint", "parts": [parts[1], parts[0]]}, {"family": "mixed-disjoint"}
 
 
 def validate_composite_exact(spec) -> bool:
@@ -559,6 +592,8 @@ def random_shape(rng, kind=None, num=None, curved=None, center=(0, 0), size=10.0
             spec, info = random_disjoint(rng, num, curved, center, size)
         elif kind == "N":
             spec, info = random_nested_rings(rng, num, curved, center, size)
+        elif kind == "M":
+            spec, info = random_mixed_disjoint(rng, num, curved, center, size)
         else:
             raise ValueError(kind)
         if validate_composite_exact(spec):
